@@ -139,9 +139,13 @@ def _encode_values(page, vals, leaf, dictionary):
     if enc == "PLAIN":
         return C.plain_encode(vals, leaf["ptype"], leaf.get("type_length")), 0
     if enc in ("PLAIN_DICTIONARY", "RLE_DICTIONARY"):
+        lookup = {}
+        for i, d in enumerate(dictionary):
+            lookup.setdefault((type(d).__name__, repr(d)), i)
         idx = []
         for v in vals:
-            idx.append(_dict_index(dictionary, v))
+            k = (type(v).__name__, repr(v))
+            idx.append(lookup[k] if k in lookup else _dict_index(dictionary, v))
         need = max([i.bit_length() for i in idx] + [0])
         if dictionary:
             need = max(need, 0)
